@@ -297,7 +297,10 @@ def logdens(name: str, p: dict, y: float):
 def _gauss_integral(g, m: float, v: float, pts, epsabs: float):
     s = math.sqrt(v)
     lo, hi = m - 12.0 * s, m + 12.0 * s  # the mass beyond 12 sd is 3.6e-33
-    pts = sorted({x for x in list(pts) + [m] if lo < x < hi})
+    cand, pts = sorted({x for x in list(pts) + [m] if lo < x < hi}), []
+    for x in cand:  # break points closer than 1e-6 sd would create degenerate panels
+        if not pts or x - pts[-1] > 1e-6 * s:
+            pts.append(x)
     val, err = scipy.integrate.quad(lambda x: g(x) * math.exp(-0.5 * ((x - m) / s) ** 2) / (s * SQRT2PI), lo, hi,
                                     epsabs=epsabs, epsrel=1e-12, limit=400, points=pts)
     return val, err
@@ -332,11 +335,15 @@ Y_RANGE = (-4.0, 4.0)
 YB_RANGE = (0.02, 0.98)
 FLOOR = 1e-8  # accuracy of the scipy.quad oracle (its own estimates stay below 1e-10) with a margin
 LNCDF_SPEC = 2e-3  # Bernoulli's expected_log_prob integrates log_normal_cdf, which the property allows to be 2e-3 off
-ENV = {  # measured maxima x 5, see above  (filled in from the calibration run on the unchanged tree)
-    "bernoulli": {"elp": (0.0, 0.0, 0.0, 0.0, 0.0)},
-    "laplace": {"elp": (0.0, 0.0, 0.0, 0.0, 0.0), "lm": (0.0, 0.0, 0.0, 0.0, 0.0)},
-    "studentt": {"elp": (0.0, 0.0, 0.0, 0.0, 0.0), "lm": (0.0, 0.0, 0.0, 0.0, 0.0)},
-    "beta": {"elp": (0.0, 0.0, 0.0, 0.0, 0.0), "lm": (0.0, 0.0, 0.0, 0.0, 0.0)},
+ENV = {  # 5 x the maxima measured on the unchanged tree at L = 20 (4 x 20 000 points per likelihood), per rho-bin
+    # Bernoulli: truncation error of the rule on the exact log Phi (LNCDF_SPEC is added on top, see run_integrals);
+    # its log_marginal is analytic and is compared at 1e-9.
+    "bernoulli": {"elp": (1.3e-13, 3.1e-14, 1.2e-09, 2.4e-05, 9.1e-04)},
+    # the kink of the Laplace density makes the rule converge like 1/L and non-monotonically (measured maxima at
+    # L = 10 / 20 / 40 / 160 in the last bin: 0.17 / 0.093 / 0.048 / 0.012)
+    "laplace": {"elp": (3.9e-02, 7.7e-02, 1.6e-01, 3.1e-01, 4.7e-01), "lm": (4.7e-02, 1.2e-01, 3.0e-01, 8.5e-01, 1.6e+00)},
+    "studentt": {"elp": (4.4e-12, 6.8e-10, 2.2e-05, 7.7e-03, 6.1e-02), "lm": (1.4e-13, 2.1e-08, 3.8e-04, 7.8e-02, 1.9e+00)},
+    "beta": {"elp": (8.0e-12, 1.5e-12, 2.0e-10, 1.5e-05, 9.1e-04), "lm": (2.1e-13, 7.1e-14, 2.8e-09, 1.6e-01, 6.3e-01)},
 }
 LS = (10, 20, 40, 160)
 
